@@ -521,7 +521,7 @@ fn gen_program2(mode: &str, seed: u64, idx: u64, thorough: bool, batchy: bool) -
             p.w_rotate = 10;
             p.w_step = 10;
             manual = rng.chance(1, 3);
-            p.w_ingest = 0;
+            p.w_ingest = 3;
             p.w_reopen = 0;
             steps = rng.range(10, 40) as usize;
         }
